@@ -28,7 +28,7 @@ LEVEL = "exploration"
 ENGINE = "E7 differential"
 ANCHORS = ["asphalt.core._context:inject", "asphalt.core._context:resource"]
 SPELLINGS = ["T", "Optional[T]", "Union[T, None]", "T | None", "None | T", "Union[None, T]"]
-STATES = ["static", "sync_factory", "async_factory", "inherited_static", "inherited_factory", "missing"]
+STATES = ["static", "sync_factory", "async_factory", "awaitable_factory", "inherited_static", "inherited_factory", "missing"]
 RULE = (
     "random signatures: 0-3 ordinary positional parameters (with/without defaults), optional *args, 0-2 keyword-only ordinary parameters, "
     "optional **kw, 1-4 injected parameters (positional-or-keyword or keyword-only; names from {default, a, b}; annotation spelling one of "
@@ -47,6 +47,7 @@ DECIDING = {
     "factory_made": "resource produced by a factory during the injected call or before it",
     "async_factory_in_sync_function": "sync function asking for an async factory's resource (AsyncResourceError both ways)",
     "inherited": "resource inherited from the parent context",
+    "awaitable_factory_in_async_function": "factory returning a non-coroutine awaitable, injected into a coroutine function",
     "called_in_spawned_task": "calls from spawned tasks",
     "called_in_nested_context": "calls from nested contexts",
     "local_classes": "function-local classes referenced by annotations",
@@ -212,6 +213,18 @@ async def scenario(case: dict[str, Any], out: dict[str, Any]) -> None:
                     return Produced(key, factory_calls[key])
 
                 where.add_resource_factory(sf, name, types=[T])
+            elif state == "awaitable_factory":
+                # a plain callable returning a non-coroutine awaitable: the async API awaits it, the sync API hands it out as is
+                class Fut:
+                    def __init__(self, key: Any) -> None:
+                        self.key = key
+
+                    def __await__(self) -> Any:
+                        factory_calls[self.key] = factory_calls.get(self.key, 0) + 1
+                        yield from anyio.sleep(0).__await__()
+                        return Produced(self.key, factory_calls[self.key])
+
+                where.add_resource_factory(lambda key=key: Fut(key), name, types=[T])
             elif state == "async_factory":
                 async def af(key: Any = key) -> Any:
                     factory_calls[key] = factory_calls.get(key, 0) + 1
@@ -296,8 +309,12 @@ async def scenario(case: dict[str, Any], out: dict[str, Any]) -> None:
                 inc("optional_missing_none")
                 if got[a] is not None:
                     bad("inject-optional-not-none", f"optional parameter {a} with nothing matching received {got[a]!r}")
-            if i["state"] in ("sync_factory", "async_factory", "inherited_factory") and isinstance(got[a], Produced):
+            if i["state"] in ("sync_factory", "async_factory", "inherited_factory", "awaitable_factory") and isinstance(got[a], Produced):
                 inc("factory_made")
+            if i["state"] == "awaitable_factory" and sig["is_async"]:
+                inc("awaitable_factory_in_async_function")
+                if not isinstance(got[a], Produced):
+                    bad("inject-differs", f"parameter {a}: a factory returning an awaitable object was not awaited by the injected coroutine function: got {got[a]!r}")
             if i["state"].startswith("inherited"):
                 inc("inherited")
             if i["as_string"] or sig["future_annotations"]:
